@@ -31,10 +31,13 @@ class OptimisticRules(WordLockRules):
             raise AnalysisBroken('XGuard::GetVersion does not return a data member')
         self.old_f = r[1][6:]
         ps = self.paths(sv)['paths']
-        asg = [e for e in ps[0].events if e['kind'] == 'assign'] if len(ps) == 1 else []
-        if len(asg) != 1 or asg[0]['path'][0] != 'field' or asg[0]['path'][1] != S('this'):
-            raise AnalysisBroken('XGuard::SetVersion is not a single member assignment')
-        self.new_f = asg[0]['path'][2]
+        # the member SetVersion assigns (on every path): the version to publish; what it assigns is judged by C09.FLOW
+        asg = [e for p_ in ps for e in p_.events if e['kind'] == 'assign' and e['path'][0] == 'field' and e['path'][1] == S('this')]
+        targets = {e['path'][2] for e in asg}
+        if len(targets) != 1 or any(len([e for e in p_.events if e['kind'] == 'assign']) != 1 for p_ in ps):
+            raise AnalysisBroken('XGuard::SetVersion does not assign exactly one data member on every path')
+        self.new_f = targets.pop()
+        self.sv_values = [e['value'] for e in asg]
         self.sv_value = asg[0]['value']
         self.sv_fn, self.gv_fn = sv, gv
 
@@ -299,9 +302,9 @@ class OptimisticRules(WordLockRules):
                 self.sink.emit('C09.TYPE', 'ok' if good else 'violated', 'XGuard::%s is a 32-bit unsigned member' % f['name'],
                                '%s:%s' % (xg['file'], f['line']), 'type %s' % f['type'].get('t'))
         prm = self.sv_fn['params'][0]
-        good = prm['type'].get('bits') == 32 and not prm['type'].get('signed') and self.sv_value == S('p:' + prm['name'], 32)
+        good = prm['type'].get('bits') == 32 and not prm['type'].get('signed') and all(v == S('p:' + prm['name'], 32) for v in self.sv_values)
         self.sink.emit('C09.FLOW', 'ok' if good else 'violated', 'XGuard::SetVersion stores its 32-bit argument',
-                       '%s:%s' % (self.sv_fn['file'], self.sv_fn['line']), 'assigns %s' % show(self.sv_value))
+                       '%s:%s' % (self.sv_fn['file'], self.sv_fn['line']), 'assigns %s' % sorted({show(v) for v in self.sv_values}))
         good = self.gv_fn['ret'].get('bits') == 32
         self.sink.emit('C09.FLOW', 'ok' if good else 'violated', 'XGuard::GetVersion returns the acquisition version',
                        '%s:%s' % (self.gv_fn['file'], self.gv_fn['line']), 'returns this->%s' % self.old_f)
